@@ -303,6 +303,11 @@ pub fn random_rln_witness(tree_height: usize) -> RLNWitnessInput {
 
 pub fn proof_values_from_witness(rln_witness: &RLNWitnessInput) -> Result<RLNProofValues> {
     message_id_range_check(&rln_witness.message_id, &rln_witness.user_message_limit)?;
+    if rln_witness.path_elements.len() != rln_witness.identity_path_index.len() {
+        return Err(Report::msg(
+            "path elements and path indexes have different lengths",
+        ));
+    }
 
     // y share
     let a_0 = rln_witness.identity_secret;
